@@ -40,6 +40,31 @@ EXPRS = {
 }
 
 
+KEYWORDS = ["Given", "When", "Then", "And", "But"]
+
+
+def keywords(typed, section, n, item=0):
+    """-> [(keyword, step type)] of the n steps of one section (0 feature background, 1 rule background, 2 own steps).
+    typed = 0: every step is written `Given`.  typed = 1..: prog["typed"], a salt; the first step of a section has an
+    explicit type, later ones any of the five keywords (And / But inherit the type of the step before them).
+    item: ordinal of the scenario / outline in its program (own steps): the same step text appears under different
+    step types in different scenarios."""
+    out, last = [], "given"
+    if typed:
+        typed += item
+    for j in range(n):
+        if not typed:
+            kw = "Given"
+        elif j == 0:
+            kw = KEYWORDS[(typed + section) % 3]
+        else:
+            kw = KEYWORDS[(typed + 2 * section + 3 * j + (typed // 5)) % 5]
+        if kw in ("Given", "When", "Then"):
+            last = kw.lower()
+        out.append((kw, last))
+    return out
+
+
 def step(o, cl=None, o2=None):
     """o2: outcome when the scenario runs a second time (scenario_autoretry); text-bound outcomes stay the same"""
     if o in ("undefined", "badarg") or o2 is None:
@@ -94,7 +119,7 @@ def cfg(expr="true", stop=False, dry=False, show_skipped=True, cont=False, captu
 def flatten(prog):
     """-> dict(elems=[...1-based list of element dicts...], features=[ids])
     element: id kind parent tags children steps has_bg fidx
-    steps (scenarios only): list of dict(o, def, org, k, cl_id, cl_layer, cl_raises)
+    steps (scenarios only): list of dict(kw, stype, o, def, org, k, cl_id, cl_layer, cl_raises)
     """
     elems = []
 
@@ -106,13 +131,18 @@ def flatten(prog):
             elems[parent - 1]["children"].append(e["id"])
         return e
 
+    typed = int(prog.get("typed") or 0)
+
+    item = [0]      # ordinal of the scenario / outline (document order)
+
     def mk_steps(fbg, rbg, own):
         out = []
-        for org, lst in (("fbg", fbg or []), ("rbg", rbg or []), ("own", own)):
+        for si, (org, lst) in enumerate((("fbg", fbg or []), ("rbg", rbg or []), ("own", own))):
+            kws = keywords(typed, si, len(lst), item[0] if si == 2 else 0)
             for k, s in enumerate(lst):
                 o = s["o"]
                 cl = s.get("cl") or [0, "", False]
-                out.append({"o": o, "o2": s.get("o2", o if o in ("undefined", "badarg") else "pass"), "def": o != "undefined", "org": org, "k": k + 1,
+                out.append({"kw": kws[k][0], "stype": kws[k][1], "o": o, "o2": s.get("o2", o if o in ("undefined", "badarg") else "pass"), "def": o != "undefined", "org": org, "k": k + 1,
                             "cl_id": cl[0], "cl_layer": cl[1], "cl_raises": bool(cl[2])})
         return out
 
@@ -133,10 +163,12 @@ def flatten(prog):
                     re_["has_bg"] = it.get("bg") is not None or inherited_fbg is not None
                     items(it["items"], re_, it.get("bg"), inherited_fbg)
                 elif it["kind"] == "scenario":
+                    item[0] += 1
                     se = new("scenario", parent["id"], it["tags"])
                     se["fidx"] = fi
                     se["steps"] = mk_steps(inherited_fbg, rbg, it["steps"])
                 else:
+                    item[0] += 1
                     oe = new("outline", parent["id"], it["tags"])
                     oe["fidx"] = fi
                     for b in it["blocks"]:
